@@ -514,7 +514,7 @@ def scalar_row_fn(text):
            "      forall|k: int| 0 <= k < i_ ==> in_rows(row_ix, (#[trigger] table.data@[k]).matrix.len) && record.data@.contains_key(table.data@[k].key)\n"
            "          && record.data@[table.data@[k].key] == elem(table.data@[k].matrix.id, row_ix),\n")
     b, n4 = re.subn(r"for\s+\(\s*key\s*,\s*\(\s*kind\s*,\s*matrix\s*\)\s*\)\s+in\s+table\.data\.iter\(\)\s*\{", "for i_ in 0..table.data.len()\n" + INV + "  {\n      let key = &table.data[i_].key; let matrix = &table.data[i_].matrix;", b)
-    b, n5 = re.subn(r"\bmatrix\.index1d\(\s*row_ix\s*\)", "matrix.index1d(row_ix)?", b)
+    b, n5 = re.subn(r"\bmatrix\.index1d\(((?:[^()]|\([^()]*\))*)\)", r"matrix.index1d(\1)?", b)
     if (n1, n2, n3, n4, n5) != (1, 1, 1, 1, 1) or "self." in b:
         raise AnchorLost("TableAccessScalarF::solve: statements outside the transcription rules %r" % ((n1, n2, n3, n4, n5),))
     return ("fn table_row_by_scalar_index(table: &MechTable, record: &mut MechRecord, row_ix: usize) -> (res: Option<()>)\n"
